@@ -46,6 +46,11 @@ def layouts(text, seed):
         # verbatim multi-group setting / non-canonical spelling: a copy made by re-parsing the text would split or re-spell it
         hs.append([['plain', text], ['apply', R['q'], 0, max(1, L - 1), True]])
         hs.append([['rainbow', text], ['apply', R['o'], min(1, L - 1), L, True]])
+    if L >= 3:
+        # a stop-and-restart point inside the text (what remove_formatting of the lower of two settings leaves behind): a
+        # match may contain it
+        for p_ in (1, 2):
+            hs.append([['plain', text], ['apply', R['R'], 0, L, True], ['apply', R['B'], 0, L, True], ['remove', R['R'], 0, p_]])
     if L >= 4:
         # three settings on top of each other from the start, the outer two ending together and the middle one elsewhere
         # (before the end of the text): what follows a match then has three settings to carry across the seam
